@@ -387,6 +387,8 @@ func (c *catalogue) colContext(t *Table, col *Column) colCtx {
 				x.plainIdx = append(x.plainIdx, i.Name)
 				x.prefixed = x.prefixed || p.Prefix != 0 || p.Ops != ""
 				x.special = x.special || i.Type != "" || i.Parser != ""
+				// a multi-column index with a generated name cannot follow a column drop or rename
+				x.textUsed = x.textUsed || IsAutoIndexName(i.Name) && len(i.Parts) > 1
 			}
 		}
 	}
@@ -756,6 +758,9 @@ func (c *catalogue) indexEdits(t *Table) {
 				}
 			}
 		})
+		if IsAutoIndexName(iname) {
+			continue // a generated name is rewritten by the differ's normalisation: only drops are demands
+		}
 		plainType := idx.Type == "" && idx.Parser == ""
 		if plainType && !idx.NullsNotDist {
 			c.add("index.unique", n, iname, fmt.Sprint(!idx.Unique), modIdx(n, iname, schema.ChangeUnique), func(m *Model) { at(m, iname).Unique = !at(m, iname).Unique })
@@ -823,12 +828,16 @@ func (c *catalogue) indexEdits(t *Table) {
 			if c.d == Postgres && plainType {
 				c.add("index.parts.nulls", n, iname, fmt.Sprint(pi), pb, func(m *Model) {
 					q := &at(m, iname).Parts[pi]
-					// default: NULLS FIRST for DESC, NULLS LAST for ASC; flip to the explicit opposite / back
-					if q.NullsFirst == nil {
-						v := !q.Desc
-						q.NullsFirst = &v
-					} else {
+					// flip the effective NULLS ordering (default: FIRST for DESC, LAST for ASC); the
+					// default is never written explicitly.
+					eff := q.Desc
+					if q.NullsFirst != nil {
+						eff = *q.NullsFirst
+					}
+					if target := !eff; target == q.Desc {
 						q.NullsFirst = nil
+					} else {
+						q.NullsFirst = &target
 					}
 				})
 			}
